@@ -606,12 +606,18 @@ func methodValueStep(u methodValueUse, content []byte) ([]byte, string, error) {
 	if !neverReassigned(info, u.encl, info.Uses[id]) {
 		return nil, "", fmt.Errorf("receiver %s may change", id.Name)
 	}
+	_, ptrRecv := u.fn.Type().(*types.Signature).Recv().Type().(*types.Pointer)
 	switch info.TypeOf(u.sel.X).Underlying().(type) {
-	case *types.Pointer, *types.Interface:
+	case *types.Interface:
+	case *types.Pointer:
+		if !ptrRecv {
+			return nil, "", fmt.Errorf("value-receiver method taken through a pointer (copies *p when evaluated)")
+		}
 	default:
-		// the method value copies the receiver when it is evaluated: the same as reading it at the call
-		// only if the variable's value never changes at all
-		if !neverMutated(info, u.encl, info.Uses[id]) {
+		// a pointer-receiver method of an addressable variable binds &v: the same object whenever it is called.
+		// A value-receiver method copies the receiver when the method value is evaluated: the same as reading
+		// it at the call only if the variable's value never changes at all
+		if !ptrRecv && !neverMutated(info, u.encl, info.Uses[id]) {
 			return nil, "", fmt.Errorf("method value with a copied receiver that may change")
 		}
 	}
